@@ -82,6 +82,15 @@ def lake_build(targets: list[str], timeout: int = 3000) -> tuple[bool, str]:
     return p.returncode == 0, (p.stdout + p.stderr)[-6000:]
 
 
+def driver_props_imports() -> list[list[str]]:
+    """import chains Driver.Main -> … -> ESV.Props.X (must be empty), see tools_driver_imports.py"""
+    import importlib.util
+    spec = importlib.util.spec_from_file_location("tools_driver_imports", os.path.join(ROOT, "tools_driver_imports.py"))
+    mod = importlib.util.module_from_spec(spec)  # type: ignore[arg-type]
+    spec.loader.exec_module(mod)  # type: ignore[union-attr]
+    return mod.driver_props_imports()
+
+
 def lean_prepare(modules: list[str], need_driver: bool = True) -> dict:
     """regen tables, build driver (models) and the property's proof modules. Returns a status dict;
     never raises on a *proof* failure (that is the break protocol's business)."""
@@ -96,6 +105,13 @@ def lean_prepare(modules: list[str], need_driver: bool = True) -> dict:
             st["driver_ok"] = ok
             if not ok:
                 st["log"] += out
+            # the driver must build whatever /repo looks like: nothing it imports may depend on the table tie ESV.Props.Tables
+            # (or any other proof statement under ESV.Props); a violation is a broken tie of every check that uses the driver
+            chains = driver_props_imports()
+            if chains:
+                st["driver_ok"] = False
+                st["driver_imports_props"] = chains
+                st["log"] += "\nthe Lean driver imports proof modules under ESV.Props (tools_driver_imports.py):\n" + "\n".join(" -> ".join(c) for c in chains) + "\n"
         if modules:
             ok, out = lake_build(modules)
             st["proofs_ok"] = ok
